@@ -89,10 +89,46 @@ static void prepare_existing(N& n, A& al, int emode) {
   }
 }
 
+// state 3 of the existing document: the same value built through the mutation API with CONSTANT strings and keys
+// (the node only points at caller-owned bytes, which the library must never write to)
+#include <deque>
+template <class N, class A>
+static void build_const(const ref::Value& v, N& out, A& al, std::deque<std::string>& store) {
+  switch (v.k) {
+    case ref::Null: out.SetNull(); break;
+    case ref::True: out.SetBool(true); break;
+    case ref::False: out.SetBool(false); break;
+    case ref::Uint: out.SetUint64(v.u); break;
+    case ref::Sint: out.SetInt64((int64_t)v.u); break;
+    case ref::Real: out.SetDouble(v.dbl()); break;
+    case ref::Str:
+      store.push_back(v.s);
+      out.SetString(StringView(store.back().data(), store.back().size()));
+      break;
+    case ref::Arr:
+      out.SetArray();
+      for (auto& x : v.a) {
+        N c;
+        build_const(x, c, al, store);
+        out.PushBack(std::move(c), al);
+      }
+      break;
+    case ref::Obj:
+      out.SetObject();
+      for (auto& m : v.o) {
+        N c;
+        build_const(m.second, c, al, store);
+        store.push_back(m.first);
+        out.AddMember(StringView(store.back().data(), store.back().size()), std::move(c), al, false);
+      }
+      break;
+  }
+}
+
 template <class Doc>
 static void apply(const std::string& e, const std::vector<const std::string*>& ts, const ref::Value& E, const std::vector<const ref::Value*>& Ts,
                   const char* tag0, vr::Ctx& ctx, int emode = 0) {
-  std::string tagbuf = std::string(tag0) + (emode == 1 ? "+maps" : emode == 2 ? "+maps-after-add-remove" : "");
+  std::string tagbuf = std::string(tag0) + (emode == 1 ? "+maps" : emode == 2 ? "+maps-after-add-remove" : emode == 3 ? "+api-built-constant-strings" : "");
   const char* tag = tagbuf.c_str();
   std::string desc = "E=" + e;
   for (auto t : ts) desc += "  T=" + *t;
@@ -103,7 +139,14 @@ static void apply(const std::string& e, const std::vector<const std::string*>& t
     ctx.violation("rejects_valid", "rejects_valid", desc, "Parse(E) failed code %d", (int)doc.GetParseError());
     return;
   }
-  if (emode) {
+  std::deque<std::string> store, store_copy;
+  if (emode == 3) {
+    typename Doc::NodeType root;
+    build_const(E, root, doc.GetAllocator(), store);
+    static_cast<typename Doc::NodeType&>(doc) = std::move(root);
+    store_copy = store;
+    desc += "  [E built through the API with constant strings and keys]";
+  } else if (emode) {
     prepare_existing(static_cast<typename Doc::NodeType&>(doc), doc.GetAllocator(), emode);
     desc += emode == 1 ? "  [lookup maps on every object of E]" : "  [every object of E: AddMember, CreateMap, RemoveMember]";
   }
@@ -115,6 +158,10 @@ static void apply(const std::string& e, const std::vector<const std::string*>& t
     std::memset(tb.p, '#', tb.n);
     if (doc.HasParseError()) {
       ctx.violation("schema_error", std::string("schema_error_") + tag, desc, "ParseSchema of a valid text reports code %d at %zu (step %zu)", (int)doc.GetParseError(), doc.GetErrorOffset(), i);
+      return;
+    }
+    if (store != store_copy) {
+      ctx.violation("schema_wrote_caller_memory", "schema_wrote_caller_memory", desc, "[%s] ParseSchema modified bytes of a constant string that belongs to the caller", tag);
       return;
     }
     ref::Value got = sc::to_ref(doc);
@@ -234,10 +281,10 @@ int main(int argc, char** argv) {
 
   vr::Family f1, f2, f3, f4;
   f4.name = "SD_pairs_shape_depth2";
-  f4.count = (uint64_t)WD.size() * WD.size() * 3;
+  f4.count = (uint64_t)WD.size() * WD.size() * 4;
   f4.group = "SD";
   f4.chunk = 512;
-  f4.rule = "all pairs (E,T) over the " + std::to_string(WD.size()) + " duplicate-free values with <= 2 children per container and nesting depth <= 2 (leaves 1 and the empty object; thorough adds \"s\" and the empty array; keys a,b in both orders): reaches two-member objects nested in two-member objects on both sides; x 3 states of the existing document (as parsed / lookup maps on every object incl. empty ones / every object after AddMember+CreateMap+RemoveMember)";
+  f4.rule = "all pairs (E,T) over the " + std::to_string(WD.size()) + " duplicate-free values with <= 2 children per container and nesting depth <= 2 (leaves 1 and the empty object; thorough adds \"s\" and the empty array; keys a,b in both orders): reaches two-member objects nested in two-member objects on both sides; x 4 states of the existing document (as parsed / lookup maps on every object incl. empty ones / every object after AddMember+CreateMap+RemoveMember / built through the API with constant strings and keys, which must not be written to)";
   const size_t mr = std::min<size_t>(WD.size(), quick ? 36 : 60);
   vr::Family f5;
   f5.name = "SR_shape_repeated";
@@ -246,11 +293,11 @@ int main(int argc, char** argv) {
   f5.chunk = 512;
   f5.rule = "repeated application over the first " + std::to_string(mr) + " shape-bounded values: all (E,T1,T2) x the 3 states of the existing document";
   f1.name = "SP_pairs";
-  f1.count = (uint64_t)WE.size() * WT.size();
+  f1.count = (uint64_t)WE.size() * WT.size() * 2;
   f1.group = "SP";
   f1.chunk = 512;
   f1.rule = "all pairs (E,T): E over " + std::to_string(WE.size()) + " duplicate-free values (<= " + std::to_string(nE) + " tokens, leaves null/true/1/1.5/\"s\", keys a,b), T over " + std::to_string(WT.size()) +
-            " values (<= " + std::to_string(nT) + " tokens, keys a,b,c: includes undeclared keys); Parse(E); ParseSchema(T); document read back through accessors == merge(E,T) in E's member order; Dump reparses to it. Non-trivial: E and T both non-empty objects sharing a key, or kinds differ.";
+            " values (<= " + std::to_string(nT) + " tokens, keys a,b,c: includes undeclared keys); Parse(E) - or E built through the mutation API with constant strings and keys, whose bytes must stay untouched -; ParseSchema(T); document read back through accessors == merge(E,T) in E's member order; Dump reparses to it. Non-trivial: E and T both non-empty objects sharing a key, or kinds differ.";
   f2.name = "SS_pairs_spaced_text";
   f2.count = (uint64_t)std::min<size_t>(WE.size(), quick ? 300 : 1500) * WTs.size();
   f2.group = "SS";
@@ -301,7 +348,46 @@ int main(int argc, char** argv) {
   f7.chunk = 64;
   f7.rule = "existing object of N members (N in {0,1,2,3,8,15..17,24,31..34,40,64,65}) x text with M undeclared keys (every M in 0..40 and 48,63..65,100) plus values for the first, middle and last declared member, in 4 layouts (undeclared first / declared first / interleaved / undeclared first with the declared ones in reverse order), declared values merged (object) or replaced (string); x 3 states of the existing document";
 
+  // SQ: string over string. Existing and new string values of different lengths / contents, in 4 positions, the existing
+  // one parsed, under a lookup map, or a CONSTANT string of the caller (which must not be written to)
+  static const char* kStrs[8] = {"\"\"", "\"s\"", "\"tt\"", "\"default-name\"", "\"bob\"", "\"x\\ny\"", "\"0123456789012345678901234567890123456789\"", "\"012345678901234567890123456789012345678\""};
+  vr::Family f8;
+  f8.name = "SQ_string_over_string";
+  f8.count = 8 * 8 * 4 * 4;
+  f8.group = "SQ";
+  f8.chunk = 16;
+  f8.rule = "all ordered pairs (S1,S2) of 8 strings (empty, 1, 2, 3, 12, 39, 40 bytes, one with an escape) as existing / new value at the root, in a member, in a nested member next to a sibling holding S1, in an array; x 4 states of the existing document (parsed / maps / maps after add+remove / API-built with constant strings whose bytes must not change)";
+
   vr::CheckFn check = [&](const vr::Family& f, uint64_t idx, vr::Ctx& ctx) {
+    if (f.name[1] == 'Q') {
+      int emode = (int)(idx % 4);
+      idx /= 4;
+      unsigned shape = (unsigned)(idx % 4);
+      idx /= 4;
+      std::string s1 = kStrs[idx / 8], s2 = kStrs[idx % 8];
+      std::string et, tt;
+      switch (shape) {
+        case 0: et = s1; tt = s2; break;
+        case 1: et = "{\"a\":" + s1 + "}"; tt = "{\"a\":" + s2 + "}"; break;
+        case 2: et = "{\"a\":{\"b\":" + s1 + "},\"c\":" + s1 + "}"; tt = "{\"a\":{\"b\":" + s2 + "}}"; break;
+        default: et = "{\"a\":[" + s1 + "," + s1 + "]}"; tt = "{\"a\":[" + s2 + "]}"; break;
+      }
+      ref::Result re = ref::parse(et), rt = ref::parse(tt);
+      if (!re.ok || !rt.ok) {
+        ctx.violation("generator_invalid", "generator_invalid", tt, "harness error: generated text is not valid");
+        return;
+      }
+      ctx.eval();
+      ctx.nontriv();
+      if (ctx.want_sample) ctx.sample("E=" + et + " T=" + tt + " state " + std::to_string(emode));
+      std::vector<const std::string*> ts1 = {&tt};
+      std::vector<const ref::Value*> Ts1 = {&rt.v};
+      apply<PoolDoc>(et, ts1, re.v, Ts1, "pool", ctx, emode);
+#if HAVE_ASAN
+      apply<SimpleDoc>(et, ts1, re.v, Ts1, "simple", ctx, emode);
+#endif
+      return;
+    }
     if (f.name[1] == 'V') {
       int emode = (int)(idx % 3);
       idx /= 3;
@@ -392,13 +478,15 @@ int main(int argc, char** argv) {
     size_t ei;
     int emode = 0;
     if (f.name[1] == 'P') {
+      emode = (int)(idx % 2) * 3;  // as parsed / built through the API with constant strings
+      idx /= 2;
       ei = idx / WT.size();
       size_t ti = idx % WT.size();
       ts = {&WT[ti]};
       Ts = {&VT[ti]};
     } else if (f.name[1] == 'D') {
-      emode = (int)(idx % 3);
-      idx /= 3;
+      emode = (int)(idx % 4);
+      idx /= 4;
       ei = idx / WD.size();
       size_t ti = idx % WD.size();
       if (HAVE_ASAN && emode != 0 && (ei >= 300 || ti >= 300)) {  // the ASan passes keep the map states to the 300 smallest shapes
@@ -445,7 +533,7 @@ int main(int argc, char** argv) {
 #endif
   };
 
-  std::vector<vr::Family> fams = {f1, f2, f3, f4, f5, f6, f7};
+  std::vector<vr::Family> fams = {f1, f2, f3, f4, f5, f6, f7, f8};
   if (args.replay) return R.replay_one(fams, check);
   const std::string only = args.get("only");
   for (auto& f : fams)
